@@ -207,10 +207,35 @@ func NewSpec(seed uint64, prop string) *Spec {
 		}
 	}
 	s.MethodWrapOff = map[string]bool{}
-	if prop == "C07" && s.Wrap == "wrapErrors" && r.IntN(2) == 0 {
+	if prop == "C07" && s.Wrap == "wrapErrors" && r.IntN(3) != 0 {
+		// one nested named pair with a fallible leaf, reachable from two roots: its generated
+		// sub-method is shared by declared methods with different method-level settings
+		for len(s.Roots) < 2 {
+			root := s.genStruct(0)
+			s.Roots = append(s.Roots, root)
+		}
+		sh := &node{Kind: "struct", ID: s.id()}
+		s.Structs[sh.ID] = sh
+		sh.Fields = append(sh.Fields, &field{Name: "F0", TName: "F0", N: &node{Kind: "basic", Basic: "int"}})
+		sh.Fields = append(sh.Fields, s.mkField(1, s.leafNoMap(), nil))
+		for i, root := range s.Roots {
+			var n *node = &node{Kind: "ref", ID: sh.ID}
+			if i%2 == 1 {
+				n = &node{Kind: "slice", Elem: n}
+			}
+			root.Fields = append(root.Fields, s.mkField(len(root.Fields), n, root))
+		}
 		for _, m := range s.methods(false) {
 			s.MethodWrapOff[m.Name] = r.IntN(3) == 0
 		}
+		// the alphabetically first root method opts out, the last one does not
+		var rootNames []string
+		for _, root := range s.Roots {
+			rootNames = append(rootNames, fmt.Sprintf("Conv%d", root.ID))
+		}
+		sort.Strings(rootNames)
+		s.MethodWrapOff[rootNames[0]] = true
+		s.MethodWrapOff[rootNames[len(rootNames)-1]] = false
 	}
 	if prop == "C07" && len(s.Leaves) == 0 {
 		// make sure there is at least one fallible position
